@@ -14,7 +14,8 @@ import re
 import string
 
 from sa.model import AnalysisError, walk_shallow, dotted, norm
-from sa.util import cfg_of, shallow_calls, const_str, local_defs, resolve_name, node_of_call
+from sa.boolflow import must_atoms
+from sa.util import cfg_of, shallow_calls, const_str, local_defs, resolve_name, node_of_call, regex_uses, unique_def, parents, node_of_ast
 
 # strftime directives whose output is digits only (C standard / python docs)
 DIGIT_DIRECTIVES = {'Y': 4, 'm': 2, 'd': 2, 'H': 2, 'M': 2, 'S': 2, 'f': 6, 'j': 3, 'y': 2, 'I': 2, 'U': 2, 'W': 2, 'w': 1, 'G': 4, 'u': 1, 'V': 2}
@@ -87,17 +88,27 @@ def check(run, model, tier):
             raise AnalysisError('trace writer: the timestamp field %s is not a recognised way of rendering the record\'s datetime' % norm(a0))
     else:
         raise AnalysisError('trace writer: expected one strftime call, found %d' % len(st_calls))
-    # ---- reader regex
-    helper = stripped.nested.get('item_without_timestamp')
-    if helper is None:
-        cands = [f for f in stripped.nested.values()]
-        helper = cands[0] if len(cands) == 1 else None
-    if helper is None:
-        raise AnalysisError('stripped(): the prefix-removing helper was not found')
-    rxs = [(dotted(c.func), const_str(c.args[0]), c) for c in shallow_calls(helper.node) if dotted(c.func) in ('re.match', 're.search', 're.fullmatch', 're.sub') and c.args]
-    if len(rxs) != 1 or rxs[0][1] is None:
-        raise AnalysisError('stripped(): expected one regex literal in the helper')
-    how, pattern, rcall = rxs[0]
+    # ---- reader regex: every regular expression applied by stripped() (in its body or in a helper nested in it)
+    uses = []          # (function that contains the use, how, pattern, call, subject args)
+    for fn_ in [stripped] + list(stripped.nested.values()):
+        for how_, pat_, c_, rest_ in regex_uses(model, fn_):
+            uses.append((fn_, how_, pat_, c_, rest_))
+    if not uses:
+        raise AnalysisError('stripped(): no regular expression found (unknown way of removing the timestamp)')
+    if len({(u[1], u[2]) for u in uses}) != 1:
+        raise AnalysisError('stripped(): its branches use different regular expressions: %s' % sorted({u[2] for u in uses}))
+    helper, how, pattern, rcall, _rest = uses[0]
+    if how not in ('re.match', 're.search', 're.fullmatch', 're.sub'):
+        raise AnalysisError('stripped(): unexpected regex operation %s' % how)
+    # how the match is used: group(1) of the match object (else the line itself)
+    for fn_, how_, pat_, c_, rest_ in uses:
+        if how_ == 're.sub':
+            continue
+        mv = [k for k, v in local_defs(fn_.node).items() if any(x is c_ for x in v if not isinstance(x, tuple))]
+        grp = [x for x in walk_shallow(fn_.node) if isinstance(x, ast.Call) and isinstance(x.func, ast.Attribute) and x.func.attr == 'group'
+               and isinstance(x.func.value, ast.Name) and x.func.value.id in mv and len(x.args) == 1 and isinstance(x.args[0], ast.Constant) and x.args[0].value == 1]
+        if not grp:
+            raise AnalysisError('stripped(): the match of the timestamp regex is not used through .group(1) (unknown idiom)')
     try:
         rx = re.compile(pattern)
     except re.error as ex:
@@ -141,44 +152,123 @@ def check(run, model, tier):
              'two lines differing only in the timestamp still differ after stripping', node=rcall, obligation=True)
     run.inst('TABLE.timestamp-prefix', helper, 'other differences survive', strip_prefix(a) != strip_prefix(c),
              'two lines differing in their end state compare equal after stripping', node=rcall, obligation=True)
-    # ---- SIBLING: branches of stripped()
+    # ---- SIBLING: every application of the prefix removal receives a stripped line; inside an iteration (several lines) blank lines are dropped
+    sites = []          # (function, call whose first subject argument is the line)
+    for fn_, how_, pat_, c_, rest_ in uses:
+        if fn_ is stripped:
+            sites.append((stripped, c_, rest_[-1] if rest_ else None))
+        else:
+            # a nested helper: its parameter is the line; look at where stripped() calls it
+            for cc in shallow_calls(stripped.node):
+                if isinstance(cc.func, ast.Name) and cc.func.id == fn_.name and cc.args:
+                    sites.append((stripped, cc, cc.args[0]))
+            for x in ast.walk(stripped.node):
+                if isinstance(x, (ast.ListComp, ast.GeneratorExp, ast.SetComp)):
+                    for cc in ast.walk(x):
+                        if isinstance(cc, ast.Call) and isinstance(cc.func, ast.Name) and cc.func.id == fn_.name and cc.args and not any(cc is s_[1] for s_ in sites):
+                            sites.append((stripped, cc, cc.args[0]))
+    run.floor('prefix-removal sites in stripped()', len(sites), 2)
     g = cfg_of(stripped)
-    calls = [(n, c) for n in g.nodes if n.kind not in ('entry', 'exit', 'xexit', 'def') for c in n.calls()
-             if isinstance(c.func, ast.Name) and c.func.id == helper.name]
-    run.floor('prefix-removal call sites in stripped()', len(calls), 2)
-    defs = local_defs(stripped.node)
+    par = parents(stripped.node)
+
+    def comp_of(node):
+        """[(comprehension node, generator)] enclosing `node`, innermost first"""
+        out, p = [], par.get(node)
+        while p is not None:
+            if isinstance(p, (ast.ListComp, ast.GeneratorExp, ast.SetComp)):
+                out.append(p)
+            p = par.get(p)
+        return out
 
     def is_strip_call(e):
         return isinstance(e, ast.Call) and isinstance(e.func, ast.Attribute) and e.func.attr == 'strip' and not e.args
 
-    def stripped_before(node, argexpr):
-        if is_strip_call(argexpr):
+    sdefs = local_defs(stripped.node)
+
+    def elements_stripped(it, depth=0):
+        """are the elements of iterable expression `it` stripped strings?  True / False / None (unknown)"""
+        if depth > 4:
+            return None
+        if isinstance(it, ast.Name):
+            d = unique_def(sdefs, it.id)
+            if d is None:
+                return False if it.id in stripped.params else None
+            return elements_stripped(d, depth + 1)
+        if isinstance(it, (ast.GeneratorExp, ast.ListComp)):
+            return stripped_value(it.elt, it, depth + 1)
+        if isinstance(it, ast.Call) and isinstance(it.func, ast.Attribute) and it.func.attr in ('splitlines', 'split'):
+            return False
+        return None
+
+    def stripped_value(e, at, depth=0):
+        """is expression e (evaluated at AST node `at`) a stripped string?  True / False / None (unknown)"""
+        if depth > 5:
+            return None
+        if is_strip_call(e):
             return True
-        if isinstance(argexpr, ast.Name):
-            # an assignment `name = <...>.strip()` dominates the call and no other assignment to name lies between
-            for m in g.nodes:
-                if m.kind == 'stmt' and isinstance(m.ast, ast.Assign) and any(isinstance(t, ast.Name) and t.id == argexpr.id for t in m.ast.targets):
-                    v = m.ast.value
-                    if is_strip_call(v) and g.dominates(m, node):
-                        others = [o for o in g.nodes if o is not m and o.kind in ('stmt', 'for') and
-                                  ((isinstance(o.ast, ast.Assign) and any(isinstance(t, ast.Name) and t.id == argexpr.id for t in o.ast.targets))
-                                   or (o.kind == 'for' and argexpr.id in {x.id for x in ast.walk(o.stmt.target) if isinstance(x, ast.Name)}))]
-                        if not any(g.exists_path(m, o, avoiding=[node]) and g.exists_path(o, node, avoiding=[m]) for o in others):
-                            return True
-                    if isinstance(v, ast.Name) or is_strip_call(v) is False:
-                        # alias of an already stripped value: target = log_stripped
-                        if isinstance(v, ast.Name) and g.dominates(m, node) and stripped_before(m, v):
-                            return True
+        if isinstance(e, ast.Name):
+            # a comprehension variable?
+            for comp in ([at] if isinstance(at, (ast.ListComp, ast.GeneratorExp, ast.SetComp)) else []) + comp_of(at):
+                for gen in comp.generators:
+                    if isinstance(gen.target, ast.Name) and gen.target.id == e.id:
+                        return elements_stripped(gen.iter, depth + 1)
+            if e.id in stripped.params:
+                return False
+            # statement level: an assignment `name = <stripped>` dominates the use and nothing rebinds the name in between
+            node = node_of_ast(g, at)
+            if node is None:
+                return None
+            verdicts = []
+            for m_ in g.nodes:
+                if m_.kind == 'stmt' and isinstance(m_.ast, ast.Assign) and any(isinstance(t, ast.Name) and t.id == e.id for t in m_.ast.targets) and g.dominates(m_, node):
+                    others = [o for o in g.nodes if o is not m_ and o.kind in ('stmt', 'for') and
+                              ((o.kind == 'stmt' and isinstance(o.ast, ast.Assign) and any(isinstance(t, ast.Name) and t.id == e.id for t in o.ast.targets))
+                               or (o.kind == 'for' and e.id in {x.id for x in ast.walk(o.stmt.target) if isinstance(x, ast.Name)}))]
+                    if any(g.exists_path(m_, o, avoiding=[node]) and g.exists_path(o, node, avoiding=[m_]) for o in others):
+                        continue
+                    verdicts.append(stripped_value(m_.ast.value, m_.ast, depth + 1) if not (isinstance(m_.ast.value, ast.Name) and m_.ast.value.id == e.id) else None)
+            if verdicts:
+                return True if any(v is True for v in verdicts) else (False if all(v is False for v in verdicts) else None)
+            # only a loop binds it
+            if any(o.kind == 'for' and e.id in {x.id for x in ast.walk(o.stmt.target) if isinstance(x, ast.Name)} for o in g.nodes):
+                return False
+            return None
+        return None
+
+    def in_iteration(call):
+        if comp_of(call):
+            return True
+        node = node_of_ast(g, call)
+        return node is not None and any(node in g.loop_body(h) for h in g.loop_heads())
+
+    def blank_dropped(call, subject):
+        """the site is reached only for a non-empty line"""
+        for comp in comp_of(call):
+            for gen in comp.generators:
+                for cond in gen.ifs:
+                    if isinstance(subject, ast.Name) and any(isinstance(x, ast.Name) and x.id == subject.id for x in ast.walk(cond)):
+                        return True
+        node = node_of_ast(g, call)
+        if node is None:
+            return False
+        for (l_, op_, r_) in must_atoms(g, node, stripped.node, params=stripped.params):
+            if isinstance(subject, ast.Name) and ((l_ == 'len(%s)' % subject.id and ((op_ == 'NotEq' and r_ == '0') or (op_ == 'Gt' and r_ == '0') or (op_ == 'GtE' and r_ == '1')))
+                                                  or (l_ == subject.id and op_ == 'Truthy') or (l_ == 'len(%s)' % subject.id and op_ == 'Truthy')
+                                                  or (l_ == subject.id and op_ == 'NotEq' and r_ in ("''", '""'))):
+                return True
         return False
-    for node, c in calls:
-        in_loop = any(node in g.loop_body(h) for h in g.loop_heads())
-        ok = bool(c.args) and stripped_before(node, c.args[0])
-        run.inst('SIBLING.strip-branches', stripped, ('multi-line' if in_loop else 'single-line') + ' branch strips before removing the prefix', ok,
-                 '' if ok else 'the %s branch of stripped() removes the prefix from an unstripped line: surrounding whitespace survives there '
-                 'but not in the other branch' % ('multi-line' if in_loop else 'single-line'), node=c, obligation=True)
-        if in_loop:
-            # guarded by a non-empty test of the stripped item
-            tests = [t for t in g.nodes if t.kind == 'test' and g.dominates(t, node) and 'len(' in norm(t.ast) and any(t in g.loop_body(h) for h in g.loop_heads())]
-            run.inst('SIBLING.strip-branches', stripped, 'multi-line branch drops blank lines', bool(tests),
-                     '' if tests else 'blank lines are not dropped in the multi-line branch', node=c, obligation=True)
+
+    for fn_, call, subject in sites:
+        multi = in_iteration(call)
+        branch = 'multi-line' if multi else 'single-line'
+        v = stripped_value(subject, call) if subject is not None else None
+        if v is None:
+            raise AnalysisError('stripped(): cannot tell whether the %s branch strips the line before removing the prefix (%s)' % (branch, norm(call)))
+        run.inst('SIBLING.strip-branches', stripped, branch + ' branch strips before removing the prefix', v,
+                 '' if v else 'the %s branch of stripped() removes the prefix from an unstripped line: surrounding whitespace survives there '
+                 'but not in the other branch' % branch, node=call, obligation=True)
+        if multi:
+            ok = blank_dropped(call, subject)
+            run.inst('SIBLING.strip-branches', stripped, 'multi-line branch drops blank lines', ok,
+                     '' if ok else 'blank lines are not dropped in the multi-line branch', node=call, obligation=True)
     run.assume('strftime digit directives produce ASCII digits only (C locale independent for %Y %m %d %H %M %S %f)')
